@@ -763,6 +763,8 @@ def gen_desc(seed, idx):
             if rng.random() < 0.15:
                 # wrong-typed value: an atomic of another kind
                 other = rng.choice([x for x in ('real', 'str', 'uns', 'bool', 'octets', 'date', 'enum', 'int') if x != kd.split(':')[-1] and not (x == 'enum' and kd == 'uns') and not (x == 'uns' and kd in ('enum', 'int', 'real', 'double')) and not (x == 'int' and kd in ('real', 'double', 'uns', 'enum')) and not (x == 'real' and kd == 'double')])
+                if op.get('idx') == 0 and other in ('uns', 'enum', 'int'):
+                    other = 'str'        # index 0 is the array length: an unsigned is the RIGHT type there
                 op['value'] = gen_value(rng, ATOM_CLASS[other], other) if other != 'enum' else ['enum', rng.randint(0, 3)]
                 op['wrong'] = True
             if rng.random() < 0.3:
